@@ -4,7 +4,7 @@ CHECKS = {
     "C14": {
         "level": "exploration",
         "technique": "hypothesis rule-based state machine on a simulated whole-second clock; model of files + lookup cache + LRU with three-valued freshness prediction",
-        "text": ("Histories of up to 40 operations (advance clock, write / delete / break / make unreadable / fix a file in one of 1-3 directories, "
+        "text": ("Histories of up to 40 operations (advance clock, write / delete / break / make unreadable / fix a file in one of 1-3 directories, replace a whole directory by a plain file (stat fails with ENOTDIR), "
                  "get_template, has_template, put_string, put_template, render) over 8 URIs are run against a real TemplateLookup under all 16 "
                  "combinations of filesystem_checks x collection_size {-1,1,2,4} x module_directory, with mako.codegen.time, the LRU timer and "
                  "file mtimes on a simulated clock. A model predicts for every fetch MUST-BE-SAME-OBJECT (and zero Template constructions), "
